@@ -65,6 +65,13 @@ def make_pool(kind, K, order, rot):
         idx = idx[1::2] + idx[0::2]
     near = NEAR[rot % len(NEAR):] + NEAR[:rot % len(NEAR)]
     big = BIG[rot % len(BIG):] + BIG[:rot % len(BIG)]
+
+    class SubEvent(SimEvent):
+        """a user subclass of SimEvent: shares the id sequence"""
+
+    class SubSubEvent(SubEvent):
+        pass
+    rank = 0
     for i in idx:
         t, p = spec[i]
         if kind == "mixed":
@@ -78,16 +85,25 @@ def make_pool(kind, K, order, rot):
         elif kind == "nearduration":
             tv, p = near[i]
             tv = _mk_time("duration", tv)
+        elif kind == "subclasses":
+            tv = _mk_time("float", t)
         else:
             tv = _mk_time(kind, t)
-        evs[i] = SimEvent(tv, tgt, "h", p)
+        cls = SimEvent
+        if kind == "subclasses":
+            cls = (SimEvent, SubEvent, SubSubEvent)[i % 3]
+        evs[i] = cls(tv, tgt, "h", p)
+        evs[i]._verif_rank = rank
+        rank += 1
     return evs
 
 
 def ref_key(e):
     # the time itself, not float(time): ints beyond 2^53 must stay exact
-    # (Python compares int/float exactly; Durations compare on SI values)
-    return (e.time, -e.priority, e.id)
+    # (Python compares int/float exactly; Durations compare on SI values);
+    # third key = creation order recorded by make_pool (the property says
+    # "earlier creation"; that ids follow creation order is checked apart)
+    return (e.time, -e.priority, getattr(e, "_verif_rank", e.id))
 
 
 # ---------------------------------------------------------------- ops
@@ -159,13 +175,25 @@ def apply_ref(ref, pool, op):
         return None
 
 
-def build(pool, hist):
+def build(pool, hist, with_queries=True):
+    """replay the history on a fresh list; like a real user the replay looks
+    at the list (peek / size / contains) after every operation, so that a
+    cached answer that is not invalidated shows up later"""
     from pydsol.core.eventlist import EventListHeap
     el = EventListHeap()
     ref = []
     for op in hist:
         apply_real(el, pool, op)
         apply_ref(ref, pool, op)
+        if with_queries:
+            try:
+                el.peek_first()
+                el.size()
+                el.is_empty()
+                el.contains(pool[0])
+                el.contains(pool[-1])
+            except Exception:  # noqa  (reported by the final comparison)
+                pass
     return el, ref
 
 
@@ -300,6 +328,11 @@ def check_order(task):
             exp = f(ka, kb)
             if got is not exp:
                 bad.append(("cmp", i, name, j, got, exp))
+    # ids are unique and follow creation order
+    by_rank = sorted(pool, key=lambda e: e._verif_rank)
+    ids = [e.id for e in by_rank]
+    if any(a >= b for a, b in zip(ids, ids[1:])):
+        bad.append(("ids-do-not-follow-creation-order", ids))
     # trichotomy / transitivity on the operators themselves
     for i, j in itertools.product(range(K), repeat=2):
         a, b = pool[i], pool[j]
@@ -356,7 +389,7 @@ def run(ctx):
     quick = ctx.tier == "quick"
     K = 7 if quick else 8
     kinds = ["int", "float", "mixed", "duration", "nearfloat",
-             "nearduration", "bigint"]
+             "nearduration", "bigint", "subclasses"]
     orders = ["index", "reversed"] if quick else ["index", "reversed",
                                                   "interleaved"]
     rots = [0, (ctx.seed % 9) + 1] if ctx.seed else [0]
